@@ -618,6 +618,9 @@ func TestVerifC02(t *testing.T) {
 		sec, _ := strconv.ParseInt(d, 10, 64)
 		deadline = time.Unix(sec, 0)
 	}
+	if err := ircserver.VerifCheckInventory(); err != nil {
+		t.Fatal(err)
+	}
 	res := &vSeqResult{EndStates: map[string]int{}, Depth: length}
 	sigs := map[string]*vViol{}
 	base := t.TempDir()
